@@ -676,3 +676,26 @@ fn test_ecm_small() {
         }
     }
 }
+
+// Verification hooks (add-only; compiled only with `--cfg yamaquasi_verif`).
+#[cfg(yamaquasi_verif)]
+pub mod verif_hooks {
+    use super::*;
+
+    pub fn m128_inv_2adic(n: u128) -> u128 {
+        M128::inv_2adic(n)
+    }
+    pub fn m128_r_r2(n: u128, ninv: u128) -> (u128, u128) {
+        let (r, r2) = M128::r_r2(n, ninv);
+        (r.0, r2.0)
+    }
+    pub fn m128_add(n: u128, x: u128, y: u128) -> u128 {
+        M128::add(n, M128(x), M128(y)).0
+    }
+    pub fn m128_sub(n: u128, x: u128, y: u128) -> u128 {
+        M128::sub(n, M128(x), M128(y)).0
+    }
+    pub fn m128_mul(n: u128, ninv: u128, x: u128, y: u128) -> u128 {
+        M128::mul(n, ninv, M128(x), M128(y)).0
+    }
+}
